@@ -82,6 +82,14 @@ const (
 	// mark and is never collected (reported by builder-list, reproduced here).
 	fpLatePart  = "C44:split-part-put-after-parent-tombstone-never-collected"
 	whyLatePart = "split part stored after its parent's tombstone, reads as removed"
+
+	// fpStuckParent: a parent header (non-physical record written together with the
+	// last split part) that carries a stale garbage mark – left by an earlier,
+	// meanwhile collected tombstone for the then unknown parent – can never be
+	// deleted (deleteMetadata bails out with errNonPhy before dropping the mark), so
+	// GetGarbage returns it on every pass; with a small batch all later garbage of
+	// the shard starves.
+	fpStuckParent = "C44:garbage-marked-split-parent-header-blocks-gc"
 )
 
 // id is an object of the C44 universe: container c, index i (IDs are never
@@ -273,7 +281,65 @@ const fpFlushRace = "C44:flush-vs-delete-orphan-blob"
 
 func (w *world) logf(f string, a ...any) { w.ops = append(w.ops, fmt.Sprintf(f, a...)) }
 
+// stuckParents lists chain parents that GetGarbage keeps returning although
+// they are parent headers (class fpStuckParent).
+func (w *world) stuckParents() []string {
+	var res []string
+	for n, sh := range w.st.shards() {
+		bins, err := sh.VerifGetGarbage(1000)
+		if err != nil {
+			ev.Inconclusive("get garbage: %v", err)
+		}
+		for _, bin := range bins {
+			for c := 0; c < nCnr; c++ {
+				p := id{c, chainParent}
+				if bin.Container != uni.Cnr(c) {
+					continue
+				}
+				for _, o := range bin.Objects {
+					if o != p.oid() {
+						continue
+					}
+					if st, _ := sh.VerifMetaStatus(p.addr()); len(st.HeaderIndex) > 0 {
+						res = append(res, fmt.Sprintf("shard %d: parent header %s state=%v is returned by GetGarbage on every pass", n, p, st.State))
+					}
+				}
+			}
+		}
+	}
+	return res
+}
+
+func (w *world) debugGarbage() string {
+	if os.Getenv("C44_DEBUG") == "" {
+		return ""
+	}
+	var b strings.Builder
+	for n, d := range w.st.dirs() {
+		_ = n
+		_ = d
+	}
+	for n, sh := range w.st.shards() {
+		bins, err := sh.VerifGetGarbage(100)
+		fmt.Fprintf(&b, "\nshard %d garbage (err=%v):", n, err)
+		for _, bin := range bins {
+			fmt.Fprintf(&b, " [%s:", bin.Container)
+			for _, o := range bin.Objects {
+				st, _ := sh.VerifMetaStatus(oid.NewAddress(bin.Container, o))
+				fmt.Fprintf(&b, " %s{state=%v hdr=", o, st.State)
+				for _, h := range st.HeaderIndex {
+					fmt.Fprintf(&b, "%s=%x;", h.K, h.V)
+				}
+				b.WriteString("}")
+			}
+			b.WriteString("]")
+		}
+	}
+	return b.String()
+}
+
 func (w *world) fail(f string, a ...any) {
+	f += w.debugGarbage()
 	w.t.Fatalf("%s\nconfig: batch=%d write-cache=%v shards=%d\nhistory:\n  %s", fmt.Sprintf(f, a...), w.batch, w.wc, len(w.st.shards()), strings.Join(w.ops, "\n  "))
 }
 
@@ -429,6 +495,10 @@ func (w *world) actPart() {
 		w.rec.Excluded(1)
 		t.Skip("known finding: " + fpLatePart)
 	}
+	if w.chainTomb[c] && k.i == partLast && ev.IsOpen("C44", fpStuckParent) {
+		w.rec.Excluded(1)
+		t.Skip("known finding: " + fpStuckParent)
+	}
 	s := spec{kind: kindPart, id: k, exp: -1, plen: 9}
 	m := &mobj{spec: s}
 	w.objs[k] = m
@@ -484,7 +554,7 @@ func (w *world) actChainTomb() {
 	// ID); with several shards the parts may live on different shards (no LINK
 	// object is generated here), so nothing is claimed then
 	discoverable := false
-	if l := w.objs[id{c, partLast}]; l != nil && l.accepted && len(w.st.shards()) == 1 {
+	if l := w.objs[id{c, partLast}]; l != nil && l.accepted && l.expect == expStay && len(w.st.shards()) == 1 {
 		discoverable = true
 	}
 	first := !w.chainTomb[c]
@@ -928,6 +998,13 @@ func run(t *rapid.T, rec *ev.Recorder, engineMode bool) {
 	})
 	w.logf("quiescent: %d passes at the fixed epoch, %d more (epoch+1, pass) rounds", roundsA, roundsB)
 	if bad := w.leftovers(); len(bad) > 0 {
+		if stuck := w.stuckParents(); len(stuck) > 0 {
+			if w.rec.Known(fpStuckParent) {
+				knownHit = true
+				return
+			}
+			w.fail("GC blocked by a garbage-marked parent header [%s]:\n  %s\nleft behind:\n  %s", fpStuckParent, strings.Join(stuck, "\n  "), strings.Join(bad, "\n  "))
+		}
 		if w.latePart {
 			only := true
 			for _, b := range bad {
